@@ -161,6 +161,10 @@ def lift_int(ctx, f, w, *strs):
 
 
 def str_eq(ctx, a, b):
+    if hasattr(a, 'eq_hook'):
+        return a.eq_hook(ctx, b)
+    if hasattr(b, 'eq_hook'):
+        return b.eq_hook(ctx, a)
     if hasattr(a, 'bv') or hasattr(b, 'bv') or hasattr(a, 'fp') or hasattr(b, 'fp'):
         return numstr_eq(ctx, a, b)
     if a.term is not None or b.term is not None:
@@ -2245,6 +2249,24 @@ def m_take_mem(ctx, args, callee):
     else:
         raise Unmodelled('mem::take of %r' % (type(a).__name__,))
     return a
+
+
+@model(r'^(std::ops::)?RangeInclusive::new$')
+def m_range_incl_new(ctx, args, callee):
+    return Agg([args[0], args[1]], 'RangeInclusive')
+
+
+@model(r'^(std::ops::)?(Range|RangeInclusive)::contains$')
+def m_range_contains(ctx, args, callee):
+    r = ctx.deref(args[0]); x = ctx.deref(args[1])
+    m = re.search(r'(Range(?:Inclusive)?)::<(\w+)>', callee)
+    ty = m.group(2) if m else 'usize'
+    sg = ty in SIGNED
+    lo, hi = r.f[0], r.f[1]
+    ge = (x >= lo) if sg else UGE(x, lo)
+    if r.ty == 'RangeInclusive' or (m and m.group(1) == 'RangeInclusive'):
+        return And(ge, (x <= hi) if sg else ULE(x, hi))
+    return And(ge, (x < hi) if sg else ULT(x, hi))
 
 
 # --- floats
